@@ -545,6 +545,123 @@ func (e *lockupEnv) dump() {
 	e.o.Emit("lockup lastid", fmt.Sprintf("ok %d", e.h.App.LockupKeeper.GetLastLockID(e.ctx())), true)
 }
 
+// rawStore: every (key, value) of the lockup KV store outside the accumulation trees (prefix 0x20), hex.
+func (e *lockupEnv) rawStore() []string {
+	store := e.ctx().KVStore(e.h.App.GetKey(lockuptypes.StoreKey))
+	it := store.Iterator(nil, nil)
+	defer it.Close()
+	var out []string
+	for ; it.Valid(); it.Next() {
+		if len(it.Key()) > 0 && it.Key()[0] == 0x20 {
+			continue
+		}
+		out = append(out, fmt.Sprintf("%x=%x", it.Key(), it.Value()))
+	}
+	return out
+}
+
+func (e *lockupEnv) paramsStr() string {
+	var p []string
+	for _, a := range e.h.App.LockupKeeper.GetParams(e.ctx()).ForceUnlockAllowedAddresses {
+		p = append(p, e.name(a))
+	}
+	if len(p) == 0 {
+		return "ok"
+	}
+	return "ok " + strings.Join(p, " ")
+}
+
+// exportImport: the REAL ExportGenesis (through the JSON codec, as AppModule does), the lockup store wiped
+// (records, index, last id, accumulation trees) and the params reset, then the REAL InitGenesis.  The bank is
+// left alone (it is another module's genesis).  The history continues on the imported store.
+// Oracle (C19): everything observable must be what it was: raw records/index/last-id bytes, params, the
+// accumulation of every real denomination at every duration of the closure, and (through e.oracle) every
+// keeper query against the shadow list.
+func (e *lockupEnv) exportImport() {
+	k := e.h.App.LockupKeeper
+	o := e.o
+	cdc := e.h.App.AppCodec()
+	preRaw := e.rawStore()
+	preParams := e.paramsStr()
+	preAcc := map[string]string{}
+	for _, dn := range e.denoms {
+		for d := range e.durSeen {
+			preAcc[fmt.Sprintf("%s/%d", dn, d)] = e.accum(dn, d).String()
+		}
+	}
+	preEmpty := e.accum("", 0)
+	var bz []byte
+	if !catch(func() { bz = cdc.MustMarshalJSON(k.ExportGenesis(e.ctx())) }) {
+		o.Emit("lockup exportimport", "panic", true)
+		o.Fail("lockup:export-import:export-panics", "")
+		return
+	}
+	store := e.ctx().KVStore(e.h.App.GetKey(lockuptypes.StoreKey))
+	var keys [][]byte
+	it := store.Iterator(nil, nil)
+	for ; it.Valid(); it.Next() {
+		keys = append(keys, append([]byte{}, it.Key()...))
+	}
+	it.Close()
+	for _, key := range keys {
+		store.Delete(key)
+	}
+	k.SetParams(e.ctx(), lockuptypes.NewParams([]string{e.addrs["X"].String()})) // a fresh chain has no such params
+	var gs lockuptypes.GenesisState
+	if !catch(func() { cdc.MustUnmarshalJSON(bz, &gs); k.InitGenesis(e.ctx(), gs) }) {
+		o.Emit("lockup exportimport", "panic", true)
+		o.Fail("lockup:export-import:import-panics", "")
+		return
+	}
+	o.Emit("lockup exportimport", "ok", true)
+	o.Count("exportimport")
+	o.Count(fmt.Sprintf("exportimport.locks.%d", min(len(gs.Locks), 6)))
+	postRaw := e.rawStore()
+	if strings.Join(preRaw, "\n") != strings.Join(postRaw, "\n") {
+		pre := map[string]bool{}
+		for _, x := range preRaw {
+			pre[x] = true
+		}
+		var diff []string
+		for _, x := range postRaw {
+			if !pre[x] {
+				diff = append(diff, "+"+x)
+			}
+			delete(pre, x)
+		}
+		for x := range pre {
+			diff = append(diff, "-"+x)
+		}
+		sort.Strings(diff)
+		if len(diff) > 6 {
+			diff = diff[:6]
+		}
+		o.Fail("lockup:export-import:records-or-index-or-lastid-differ", strings.Join(diff, " "))
+	}
+	if p := e.paramsStr(); p != preParams {
+		o.Fail("lockup:export-import:params", fmt.Sprintf("before %q after %q", preParams, p))
+	}
+	for key, v := range preAcc {
+		var dn string
+		var d int64
+		parts := strings.SplitN(key, "/", 2)
+		dn = parts[0]
+		fmt.Sscan(parts[1], &d)
+		if got := e.accum(dn, d).String(); got != v {
+			o.Fail("lockup:export-import:accumulation", fmt.Sprintf("denom %s duration>=%d before %s after %s", dn, d, v, got))
+		}
+	}
+	// the accumulation tree of the non-denomination "" (F6) is not rebuilt: recorded, not a property failure
+	if post := e.accum("", 0); !post.Equal(preEmpty) {
+		o.Count("exportimport.empty-denom-accum-dropped")
+	}
+	e.oracle("exportimport")
+	o.Emit("lockup accumempty 0", "ok "+e.accum("", 0).String(), true)
+	o.Emit("lockup params", e.paramsStr(), true)
+	e.dump()
+	e.observe(4)
+}
+
 func (e *lockupEnv) randLock(p func(l *shLock) bool) *shLock {
 	ids := e.sel(p)
 	if len(ids) == 0 {
@@ -655,8 +772,30 @@ func runLockup(t *testing.T, seed int64, n int, dir string) {
 		if lastID != 0 {
 			o.Fail("genesis:locks-exist", "")
 		}
+		// probe (C19, candidate finding L2; discarded branch): InitGenesis of a document that lists lock id 1 twice.
+		// Model: Props.C19.lockup_init_genesis_swallows_error_witness — no panic, the error of InitializeAllLocks is
+		// dropped, lock 2 is never imported and no accumulation store is written.
+		if done == 0 {
+			cctx, _ := h.Ctx.CacheContext()
+			mk := func(id uint64, owner string, amt int64) lockuptypes.PeriodLock {
+				return lockuptypes.PeriodLock{ID: id, Owner: e.addrs[owner].String(), Duration: 10 * time.Second, Coins: sdk.NewCoins(sdk.NewInt64Coin("foo", amt))}
+			}
+			gs := lockuptypes.GenesisState{LastLockId: 2, Locks: []lockuptypes.PeriodLock{mk(1, "A", 100), mk(1, "B", 7), mk(2, "B", 5)}}
+			panicked := !catch(func() { k.InitGenesis(cctx, gs) })
+			_, err2 := k.GetLockByID(cctx, 2)
+			l1, _ := k.GetLockByID(cctx, 1)
+			acc := k.GetPeriodLocksAccumulation(cctx, lockuptypes.QueryCondition{LockQueryType: lockuptypes.ByDuration, Denom: "foo", Duration: 0})
+			if !panicked && err2 != nil && l1 != nil && l1.Owner == e.addrs["B"].String() && acc.IsZero() {
+				o.Count("probe.init-genesis-swallows-error.confirmed")
+			} else {
+				o.Count(fmt.Sprintf("probe.init-genesis-swallows-error.NOT-as-modelled.panicked=%v.lock2missing=%v.acc=%s", panicked, err2 != nil, acc))
+			}
+		}
 		hist := 25 + r.Intn(70)
 		for step := 0; step < hist && done < n; step++ {
+			if step > 2 && r.Intn(10) == 0 {
+				e.exportImport()
+			}
 			done++
 			e.advance()
 			now := e.now
